@@ -221,7 +221,7 @@ theorem SameViews.eqMatch_left {a a' : OfMatch} (h : SameViews a a') (b : OfMatc
   rw [h.w, h.srcView, h.dstView]
   congr 3
   apply List.all_congr rfl
-  intro f _
+  intro f
   rw [h.view f]
 theorem SameViews.eqMatch_right {b b' : OfMatch} (h : SameViews b b') (a : OfMatch) : eqMatch a b = eqMatch a b' := by
   rw [eqMatch_comm, h.eqMatch_left, eqMatch_comm]
@@ -232,7 +232,7 @@ theorem SameViews.overlapsWith_left {a a' : OfMatch} (h : SameViews a a') (b : O
   rw [h.srcView, h.dstView]
   congr 2
   apply List.all_congr rfl
-  intro f _
+  intro f
   rw [h.view f]
 theorem SameViews.overlapsWith_right {b b' : OfMatch} (h : SameViews b b') (a : OfMatch) :
     Pox.FlowMod.overlapsWith a b = Pox.FlowMod.overlapsWith a b' := by
@@ -240,7 +240,7 @@ theorem SameViews.overlapsWith_right {b b' : OfMatch} (h : SameViews b b') (a : 
   rw [h.srcView, h.dstView]
   congr 2
   apply List.all_congr rfl
-  intro f _
+  intro f
   rw [h.view f]
 
 namespace Variant
